@@ -174,10 +174,15 @@ pub fn run_case(sc: &Scenario, mode: &Mode) -> CaseOut {
         2 => out.count("scenarios_with_motif_ephemeral_chain"),
         3 => out.count("scenarios_with_motif_shared_ephemeral_concurrent"),
         4 => out.count("scenarios_with_motif_fan_in"),
+        5 => out.count("scenarios_with_motif_dependency_removed_and_put_back"),
         100 => out.count("scenarios_mutated_from_regression_corpus"),
         _ => out.count("scenarios_without_motif"),
     }
     for (i, step) in sc.steps.iter().enumerate() {
+        w.deleted_in_step.clear();
+        if let Some(w2) = w15.as_mut() {
+            w2.deleted_in_step.clear();
+        }
         for e in step.edits.iter() {
             w.apply_edit(e);
             if let Some(w2) = w15.as_mut() {
